@@ -894,9 +894,15 @@ class StrainEnergy:
             3x3 rotation matrix
         '''
         self.rotation = np.array(rot)
+        #Rotated tensors are derived in update(), so they have to be re-derived
+        #if the elastic constants were supplied before the rotation
+        if self.unrotated_cMatrix_4th.any():
+            self.update()
 
     def setRotationPrecipitate(self, rot):
         self.rotationPrec = np.array(rot)
+        if self.unrotated_cMatrix_4th.any():
+            self.update()
 
     def setEigenstrain(self, strain):
         '''
